@@ -1653,3 +1653,23 @@ V("C10", "benign_async_ref_skip_flag", "benign", None, (Z, """                tr
                             self_.update({pname: new_obj})
                         except Skip:
                             pass"""))
+
+# ======================================================================= C11
+V("C11", "merge_takes_farthest_ancestor", "fire", "R11.a", (Z, "        supers = classlist(mcs)[::-1]", "        supers = classlist(mcs)[:-1] + [mcs]"))
+V("C11", "revalidation_only_on_type_change", "fire", "R11.a", (Z, "        if type_change or slot_overridden and param.default is not None:", "        if type_change and param.default is not None:"))
+V("C11", "inherited_container_not_copied", "fire", "R11.a", (Z, """                if _is_mutable_container(v):
+                    setattr(param, slot, copy.copy(v))
+
+        # Once all the static slots""", """                if _is_mutable_container(v) and False:
+                    setattr(param, slot, copy.copy(v))
+
+        # Once all the static slots"""))
+V("C11", "add_parameter_skips_merge", "fire", "R11.b", (Z, "        ParameterizedMetaclass._initialize_parameter(cls, param_name, param_obj)", "        param_obj._set_names(param_name)"))
+V("C11", "revalidation_skips_falsy_defaults", "fire", "R11.*", (Z, "        if type_change or slot_overridden and param.default is not None:", "        if type_change or slot_overridden and bool(param.default):"))
+V("C11", "benign_revalidation_guard_distributed", "benign", None, (Z, "        if type_change or slot_overridden and param.default is not None:", "        if (type_change or slot_overridden) and (type_change or param.default is not None):"))
+V("C11", "benign_slot_search_named_missing", "benign", None, (Z, """                new_param = scls.__dict__.get(param_name)
+                if new_param is None or not hasattr(new_param, slot):
+                    continue""", """                new_param = scls.__dict__.get(param_name)
+                missing = new_param is None or not hasattr(new_param, slot)
+                if missing:
+                    continue"""))
